@@ -208,6 +208,16 @@ def T4(h):
     h.undo(u1)
 
 
+def T4U(h):
+    """creation undone, redone, undone again: the last undo record points back at the first un-creation record"""
+    h.commit([(oid(1), b'a1')])
+    t2 = h.commit([(oid(3), b'c1')], desc=b'creates 3')
+    u1 = h.undo(t2)
+    u2 = h.undo(u1)
+    h.undo(u2)
+    h.commit([(oid(1), b'a2')], desc=b'afterwards')
+
+
 def T6(h):
     """deleteObject, then re-creation"""
     h.commit([(oid(1), b'a1'), (oid(2), b'b1')])
@@ -285,7 +295,7 @@ def TBIG(h):
     h.commit([(oid(2), b'b-small')], b'u', b'small')
 
 
-FILE_TEMPLATES = {'T1': T1, 'T2': T2, 'T3': T3, 'T4': T4, 'T5': T5, 'T5C': T5C, 'T6': T6, 'T10': T10, 'T2L': T2L, 'T3E': T3E, 'TE': TE, 'TBIG': TBIG, 'TS': TS, 'TX': TX}
+FILE_TEMPLATES = {'T1': T1, 'T2': T2, 'T3': T3, 'T4': T4, 'T4U': T4U, 'T5': T5, 'T5C': T5C, 'T6': T6, 'T10': T10, 'T2L': T2L, 'T3E': T3E, 'TE': TE, 'TBIG': TBIG, 'TS': TS, 'TX': TX}
 MAPPING_TEMPLATES = {'T1': T1, 'T2': T2, 'T3': T3}
 
 
